@@ -125,4 +125,29 @@ var props = map[string]Prop{
 			"`==` between $left and $right terms is only generated as a top-level (AND-ed) condition: there pql's plain `=` and a NULL-safe equality select the same pairs",
 		},
 	},
+	"C01": {
+		Stages: []Stage{
+			{Name: "exhaustive", Test: "TestC01Exhaustive", Shards: [2]int{8, 16}, Timeout: [2]time.Duration{10 * min, 30 * min}},
+			{Name: "random", Test: "TestC01Random", Shards: [2]int{4, 16}, Checks: [2]int{1500, 40000}, SeedOffset: 1, Timeout: [2]time.Duration{10 * min, 60 * min}},
+		},
+		Rule: "exhaustive: all expression trees with <= 3 operator nodes over 27 constructors (15 binary operators, in, index, both signs, seven built-ins, one pass-through function) in the where position, once with the parentheses the grammar needs and once with every operand parenthesised; random: rapid-generated trees to depth 5 (thorough 8) with every literal spelling, quoted and qualified names, calls of all built-ins and pass-through names, explicit required and redundant parentheses, placed in twelve positions (where, project, extend named/unnamed, summarize aggregate and key, sort, take, top count and key, join on, let), one in three re-checked inside two more redundant parentheses. Oracle: Compile (under a CPU watchdog) must return; the emitted SQL must parse; the clause holding the translation is read with ClickHouse's operator precedence and evaluated on 25+ row valuations (all-NULL, single-NULL, mixed ints/strings) and must equal the value of the generator's tree under PQL semantics (==/!= never NULL, =~/!~ on lower(), built-ins by their documented meaning, any other function an injective function of its name and argument values). Non-trivial = >= 2 operator nodes or an explicit parenthesis; distinct = position x canonical tree.",
+		Assumptions: []string{
+			"SQL is read with ClickHouse's precedence table (OR < AND < NOT < IS NULL < comparison/IN < || < + - < * / % < unary sign < [ ])",
+			"values the property is silent about are don't-care and skipped: =~/!~ with a NULL operand, strcat with a NULL argument",
+			"in join conditions `==` between $left and $right terms is only generated as a top-level AND-ed condition (pql deliberately emits a plain `=` there); predicate positions compare whether the row is kept",
+			"pass-through function names that are SQL keywords or functions the SQL evaluator interprets are not generated",
+		},
+	},
+	"C05": {
+		Stages: []Stage{
+			{Name: "programs", Test: "TestC05Programs", Shards: [2]int{4, 16}, Checks: [2]int{4000, 80000}, Timeout: [2]time.Duration{10 * min, 60 * min}},
+			{Name: "soups", Test: "TestC05Soups", Shards: [2]int{4, 16}, SeedOffset: 1, Timeout: [2]time.Duration{10 * min, 60 * min}},
+			{Name: "fuzz", Fuzz: "FuzzC05Statement", Shards: [2]int{0, 1}, FuzzTime: [2]time.Duration{0, 4 * min}},
+		},
+		Rule: "programs: rapid-generated rule-abiding programs of every shape (all operators, nested joins, lets before and after the query, hostile quoted names and strings, odd-but-accepted forms: negative and parenthesised limits, literals as predicates, operator keywords as column names) in random layouts, half of them corrupted by token edits and kept when they still compile; benign parameter maps; soups: every short token sequence (C08's alphabets and contexts) that compiles; thorough adds native fuzzing seeded with the goldens. Oracle on every successful compilation: the output lexes under standard and under ClickHouse quoting rules without unterminated token or comment, holds exactly one `;` and it is the last token, has balanced brackets, parses as [WITH name AS (select), ...] select; every FROM/JOIN reads a table named in the PQL source (taken from parser.Parse's TableRefs and `as` names) or a CTE defined earlier; CTE names are pairwise distinct; every CTE is used. Non-trivial = the statement has a CTE or a join, or the source is a compiled mutant/soup; distinct = distinct sources.",
+		Assumptions: []string{
+			"the SELECT grammar of harness/sqlx is wider than what pql emits today (optional DISTINCT, INNER/LEFT [OUTER] JOIN, aliases with or without AS, NULLS FIRST/LAST) so a harmless change of strategy is not reported",
+			"sources that use __subquery names themselves, repeat an `as` name, or call a pass-through function named like an SQL keyword are excluded (counted)",
+		},
+	},
 }
